@@ -7,6 +7,7 @@ from ..analysis import Spec, src, const_value
 from ..rules import (flow_canon, canon, template_sites, GWF, EXC, mpt, need_func, stores_to, raise_class,
                      parent_map, kw, is_const, strip_wrappers)
 from . import common, gitcmds
+from .c03 import bind_args
 from .c12 import _first_exit
 
 GIT = 'bert_e.lib.git'
@@ -59,56 +60,20 @@ def atomic_push_all(prog, an, rep):
 
 
 def elem_producers(an, f, name, seen=None):
-    """Producers of the elements of list variable `name` in f."""
+    """Producers of the elements of list variable `name` in f (a parameter:
+    of what every caller passes)."""
     prog = an.prog
-    seen = seen or set()
-    if name in seen:
+    seen = seen if seen is not None else set()
+    if (f.qname, name) in seen:
         return set()
-    seen.add(name)
+    seen.add((f.qname, name))
     out = set()
 
     def of_expr(e):
-        e = strip_wrappers(e)
-        if isinstance(e, ast.Name):
-            return elem_producers(an, f, e.id, seen)
-        if isinstance(e, (ast.ListComp, ast.GeneratorExp)):
-            return of_elem(e.elt)
-        if isinstance(e, (ast.List, ast.Tuple)):
-            r = set()
-            for x in e.elts:
-                r |= of_elem(x.value if isinstance(x, ast.Starred) else x) \
-                    if not isinstance(x, ast.Starred) else of_expr(x.value)
-            return r
-        if isinstance(e, ast.BinOp) and isinstance(e.op, ast.Add):
-            return of_expr(e.left) | of_expr(e.right)
-        if isinstance(e, ast.Subscript) and isinstance(e.slice, ast.Slice):
-            return of_expr(e.value)
-        if isinstance(e, ast.Call):
-            cal = prog.callee(f, e)
-            if cal[0] == 'func' and isinstance(e.func, ast.Name) and \
-                    e.func.id not in ('list',):
-                return {'elements-of:' + cal[1]}
-        return {'unknown:' + src(e)[:40]}
+        return expr_producers(an, f, e, seen)
 
     def of_elem(e):
-        if isinstance(e, ast.Call):
-            cal = prog.callee(f, e)
-            if cal[0] in ('func', 'class'):
-                return {cal[1]}
-            return {'unknown-call:' + src(e)[:40]}
-        if isinstance(e, ast.Name):
-            r = set()
-            for st, v in stores_to(f, e.id):
-                if v is None:
-                    # unpacking `a, *b = xs`: element of xs
-                    if isinstance(st, ast.Assign):
-                        r |= of_expr(st.value)
-                    else:
-                        r.add('unknown-binding:' + e.id)
-                else:
-                    r |= of_elem(v)
-            return r or {'unknown-name:' + e.id}
-        return {'unknown:' + src(e)[:40]}
+        return _elem_producers(an, f, e, seen)
 
     for st, v in stores_to(f, name):
         if v is not None:
@@ -128,13 +93,83 @@ def elem_producers(an, f, name, seen=None):
                 out |= of_expr(n.args[0])
             elif n.func.attr == 'insert' and len(n.args) > 1:
                 out |= of_elem(n.args[1])
+    if name in f.params:
+        callers = 0
+        for g in prog.all_funcs():
+            for call in an.direct_calls(g, Spec.func(f.qname)):
+                callers += 1
+                bound = bind_args(f, call)
+                if name in bound:
+                    out |= expr_producers(an, g, bound[name], seen)
+                else:
+                    out.add('unknown-argument:' + name)
+        if not callers:
+            out.add('unknown-parameter:' + name)
     return out
+
+
+def expr_producers(an, f, e, seen=None):
+    """Producers of the elements of the list expression e (in f)."""
+    prog = an.prog
+    seen = seen if seen is not None else set()
+    e = strip_wrappers(e)
+    if isinstance(e, ast.Name):
+        return elem_producers(an, f, e.id, seen)
+    if isinstance(e, (ast.ListComp, ast.GeneratorExp)):
+        g0 = e.generators[0]
+        if len(e.generators) == 1 and isinstance(g0.target, ast.Name) and \
+                isinstance(e.elt, ast.Name) and e.elt.id == g0.target.id:
+            return expr_producers(an, f, g0.iter, seen)   # a filter
+        return _elem_producers(an, f, e.elt, seen)
+    if isinstance(e, (ast.List, ast.Tuple)):
+        r = set()
+        for x in e.elts:
+            r |= expr_producers(an, f, x.value, seen) \
+                if isinstance(x, ast.Starred) else \
+                _elem_producers(an, f, x, seen)
+        return r
+    if isinstance(e, ast.BinOp) and isinstance(e.op, ast.Add):
+        return expr_producers(an, f, e.left, seen) | \
+            expr_producers(an, f, e.right, seen)
+    if isinstance(e, ast.Subscript) and isinstance(e.slice, ast.Slice):
+        return expr_producers(an, f, e.value, seen)
+    if isinstance(e, ast.Call):
+        cal = prog.callee(f, e)
+        if cal[0] == 'func' and isinstance(e.func, ast.Name) and \
+                e.func.id not in ('list',):
+            return {'elements-of:' + cal[1]}
+    return {'unknown:' + src(e)[:40]}
+
+
+def _elem_producers(an, f, e, seen):
+    prog = an.prog
+    if isinstance(e, ast.Call):
+        cal = prog.callee(f, e)
+        if cal[0] in ('func', 'class'):
+            return {cal[1]}
+        return {'unknown-call:' + src(e)[:40]}
+    if isinstance(e, ast.Subscript) and not isinstance(e.slice, ast.Slice):
+        return expr_producers(an, f, e.value, seen)     # xs[0]
+    if isinstance(e, ast.Name):
+        r = set()
+        for st, v in stores_to(f, e.id):
+            if v is None:
+                # unpacking `a, *b = xs`: element of xs
+                if isinstance(st, ast.Assign):
+                    r |= expr_producers(an, f, st.value, seen)
+                else:
+                    r.add('unknown-binding:' + e.id)
+            else:
+                r |= _elem_producers(an, f, v, seen)
+        return r or {'unknown-name:' + e.id}
+    return {'unknown:' + src(e)[:40]}
 
 
 def named_pushes(prog, an, rep):
     R = 'C02.ARG.named-push'
     push = need_func(an, GU + '.push')
     n = 0
+    counts = {'integration': 0, 'queue': 0}
     for f in prog.all_funcs():
         if f.module.name == 'bert_e.git_host.mock':
             continue
@@ -153,7 +188,10 @@ def named_pushes(prog, an, rep):
                 rep.ok(R, inst + ' single ref', f.where(call),
                        'one ref update is atomic by itself')
                 continue
-            # (a) integration branches minus the ghost / source branch
+            # (a) integration branches minus the ghost / source branch:
+            # a slice from 1 on, or a filter that drops the ghost
+            WB = 'elements-of:' + GWF + \
+                '.integration.create_integration_branches'
             if isinstance(br, ast.Subscript) and \
                     isinstance(br.slice, ast.Slice) and \
                     isinstance(br.value, ast.Name):
@@ -161,9 +199,8 @@ def named_pushes(prog, an, rep):
                 prods = elem_producers(an, f, br.value.id)
                 ok = isinstance(lo, ast.Constant) and \
                     isinstance(lo.value, int) and lo.value >= 1 and \
-                    br.slice.step is None and prods == {
-                        'elements-of:' + GWF +
-                        '.integration.create_integration_branches'}
+                    br.slice.step is None and prods == {WB}
+                counts['integration'] += 1
                 rep.check(ok, R, inst, f.where(call),
                           'a non-atomic named push may carry the source '
                           'branch or foreign refs (slice lower bound %s, '
@@ -171,9 +208,31 @@ def named_pushes(prog, an, rep):
                                              sorted(prods)),
                           detail=str(sorted(prods)))
                 continue
+            if isinstance(br, (ast.ListComp, ast.GeneratorExp)) and \
+                    len(br.generators) == 1 and \
+                    isinstance(br.generators[0].target, ast.Name) and \
+                    isinstance(br.elt, ast.Name) and \
+                    br.elt.id == br.generators[0].target.id:
+                g0 = br.generators[0]
+                v = g0.target.id
+                drops_ghost = any(
+                    ' '.join(src(c_).split()) in (
+                        'not isinstance(%s, GhostIntegrationBranch)' % v,
+                        'type(%s) is not GhostIntegrationBranch' % v)
+                    for c_ in g0.ifs)
+                prods = expr_producers(an, f, g0.iter)
+                counts['integration'] += 1
+                rep.check(drops_ghost and prods == {WB}, R, inst,
+                          f.where(call), 'a non-atomic named push may carry '
+                          'the source branch or foreign refs (filter %s, '
+                          'producers %s)' % ([src(c_) for c_ in g0.ifs],
+                                             sorted(prods)),
+                          detail=str(sorted(prods)))
+                continue
             # (b) queue branches only
             if isinstance(br, ast.Name):
                 prods = elem_producers(an, f, br.id)
+                counts['queue'] += 1
                 rep.check(bool(prods) and prods <= QUEUE_PRODUCERS, R, inst,
                           f.where(call), 'a non-atomic named push carries '
                           'refs produced by %s (only q/ and q/w/ branches '
@@ -182,7 +241,10 @@ def named_pushes(prog, an, rep):
                 continue
             rep.violation(R, inst, f.where(call), 'a non-atomic named push '
                           'of %s: it may carry destination refs' % src(br))
-    rep.floor('C02 named push call sites', n, 4)
+    rep.floor('C02 named push call sites', n, 2)
+    rep.floor('C02 named pushes of integration branches',
+              counts['integration'], 1)
+    rep.floor('C02 named pushes of queue branches', counts['queue'], 1)
     # what create_integration_branches yields after the first element are
     # w/ branches (names built from the 'w/{}/{}' constant)
     f = need_func(an, GWF + '.integration.create_integration_branches')
